@@ -39,7 +39,8 @@ pub struct TlS {
 }
 
 pub const DURATIONS: [(&str, f64); 13] = [("1s", 1.0), ("5s", 5.0), ("0.5s", 0.5), ("2.5s", 2.5), ("250ms", 0.25), ("1500ms", 1.5), ("1_500ms", 1.5), ("2e3ms", 2.0), ("for 2s", 2.0), ("for 750ms", 0.75), ("0s", 0.0), ("0.0ms", 0.0), ("1.0000000596046448s", 1.0000000596046448)];
-pub const DELAYS: [(&str, f64); 3] = [("after 1s", 1.0), ("after 250ms", 0.25), ("after 0.5s", 0.5)];
+// negative delays (the animation is already under way at time 0) are ordinary builder input and ordinary literals
+pub const DELAYS: [(&str, f64); 5] = [("after 1s", 1.0), ("after 250ms", 0.25), ("after 0.5s", 0.5), ("after -0.5s", -0.5), ("after -250ms", -0.25)];
 pub const REPEATS: [(&str, Option<u32>); 5] = [("1x", Some(1)), ("3x", Some(3)), ("infinite", None), ("16_777_217x", Some(16_777_217)), ("4294967295x", Some(u32::MAX))];
 pub const EASINGS: [&str; 3] = ["Easing::OutQuad", "mina::Easing::In", "MY_EASE"];
 pub const POSITIONS: [(&str, f64); 9] = [("from", 0.0), ("to", 1.0), ("0%", 0.0), ("10%", 0.10), ("25%", 0.25), ("40%", 0.40), ("100%", 1.0), ("12.5%", 0.125), ("33.3%", 0.333)];
